@@ -340,3 +340,20 @@ Proof.
   split; [vm_compute; reflexivity|]. split; [repeat constructor|].
   split; vm_compute; reflexivity.
 Qed.
+
+(* the write half of c02_prompt: the guards are met and the poll after the write emits ST_DATA *)
+Lemma prompt_write_g_nonvacuous :
+  exists w cfg ops,
+    vconfig_ok cfg = true /\ 1 <= vc_max_retx cfg /\
+    match wtrace w cfg ops with
+    | [st0; st1; st2] =>
+        prompt_window cfg (c10_acc_next c10_acc0 st0) st0 st1 st2 && idle_seq_ok (fs_pre st1) &&
+        no_imm_ack (fs_pre st1) && can_send_new (fs_now st1) 528 (fs_pre st1) && emits_data st2
+    | _ => false
+    end = true /\
+    c02_prompt_write_g cfg (wtrace w cfg ops) = true.
+Proof.
+  exists 1056, s2_cfg, [VoPoll []; VoWrite (repeat 0 (Z.to_nat 528)); VoPoll []].
+  split; [vm_compute; reflexivity|]. split; [vm_compute; discriminate|].
+  split; vm_compute; reflexivity.
+Qed.
